@@ -219,3 +219,29 @@ def own_concurrency(F, rep, rule):
         rep.holds(rule, "parallel-entry-points", "the only parallel constructor calls are in %s" % callers)
     else:
         rep.inconclusive(rule, "parallel-entry-points", "parallel index constructors are called from %s" % callers)
+
+
+DNA_WRITERS_WITH_LEMMA = {
+    "dna_string::DnaString::new": "L-dna-new", "dna_string::DnaString::with_capacity": "L-dna-new", "dna_string::DnaString::blank": "L-dna-new",
+    "dna_string::DnaString::clear": "L-dna-new", "dna_string::DnaString::push": "L-dna-push", "dna_string::DnaString::extend": "L-dna-extend",
+    "dna_string::DnaString::set_by_addr": "L-dna-set", "dna_string::DnaString::from_bytes": "L-dna-extend",
+    "dna_string::DnaString::from_dna_string": "from_dna_string lemma", "dna_string::DnaString::from_acgt_bytes": "from_acgt_bytes lemma",
+}
+
+
+def dnastring_writers(F, rep, rule):
+    ws = who_writes_field(F, {"dna_string::DnaString"}, None)
+    seen = {}
+    for w in ws:
+        if is_derived_body(w["body"]):
+            continue
+        seen.setdefault(w["path"], w)
+    n = 0
+    for path, w in sorted(seen.items()):
+        if path in DNA_WRITERS_WITH_LEMMA:
+            rep.holds(rule, "writer/" + path, "writer of the DnaString representation covered by %s" % DNA_WRITERS_WITH_LEMMA[path])
+            n += 1
+        else:
+            rep.inconclusive(rule, "writer/" + path, "%s writes the DnaString representation (%s) and has no invariant-preservation lemma" % (path, w["kind"]),
+                             site=F.site(w["body"], w["line"]))
+    rep.floor("DnaString representation writers covered by lemmas", 9, n)
